@@ -73,13 +73,19 @@ def overriding_default(o):
     return eliot_json_default(o)
 
 
+TIER = ["quick"]
+
+
 def values():
+    second = SMALL if TIER[0] == "quick" else ATOMS
     out = list(ATOMS)
-    level1 = [[]] + [[a] for a in ATOMS] + [[a, b] for a in ATOMS for b in SMALL]
-    level1 += [{}] + [{"k": a} for a in ATOMS] + [{"k": a, "café\n": b} for a in ATOMS for b in SMALL]
+    level1 = [[]] + [[a] for a in ATOMS] + [[a, b] for a in ATOMS for b in second]
+    level1 += [{}] + [{"k": a} for a in ATOMS] + [{"k": a, "café\n": b} for a in ATOMS for b in second]
     out += level1
     for c in level1:
         out += [[c], {"k": c}, [c, 0], {"a": [c], "b": {"c": c}}]
+        if TIER[0] != "quick":
+            out += [[[c, None], {"z": [c]}], {"x": {"y": {"z": c}}}]
     return out
 
 
@@ -106,14 +112,22 @@ def BOUNDS(tier):
 
 
 def units(tier):
+    global _VALUES
+    if TIER[0] != tier:
+        TIER[0] = tier
+        _VALUES = None
     n = len(values())
     return [["v", i, min(n, i + 100)] for i in range(0, n, 100)] + [["rich"], ["real"], ["custom"]]
 
 
 def cases(unit, tier):
+    global _VALUES
+    if TIER[0] != tier:
+        TIER[0] = tier
+        _VALUES = None
     if unit[0] == "v":
         for i in range(unit[1], unit[2]):
-            yield ["v", i]
+            yield ["v", i, tier]
     elif unit[0] == "rich":
         for i in range(len(rich_values())):
             yield ["rich", i]
@@ -251,6 +265,10 @@ BASE = {"task_uuid": "u-1", "task_level": [2, 1], "timestamp": 1600000000.25, "m
 def run_case(case):
     world.fresh()
     if case[0] == "v":
+        global _VALUES
+        if len(case) > 2 and TIER[0] != case[2]:
+            TIER[0] = case[2]
+            _VALUES = None
         v = value(case[1])
         msg = dict(BASE, v=v)
         viol, text = check_one(msg, norm(msg), None)
